@@ -101,3 +101,17 @@ pub proof fn lemma_same_config_wf<M: Fn(CharClassID, char) -> bool>(a: ScannerIm
         assert(mode_wf(a.scanner_modes@[i], a.scanner_modes@.len() as int));
     }
 }
+
+pub proof fn lemma_same_config_trans<M: Fn(CharClassID, char) -> bool>(a: ScannerImpl<M>, b: ScannerImpl<M>, c: ScannerImpl<M>)
+    requires same_config(a, b), same_config(b, c)
+    ensures same_config(a, c)
+{
+    assert forall|i: int| 0 <= i < a.scanner_modes@.len() implies {
+            &&& (#[trigger] a.scanner_modes@[i]).name == c.scanner_modes@[i].name
+            &&& a.scanner_modes@[i].transitions == c.scanner_modes@[i].transitions
+            &&& dfa_core_eq(a.scanner_modes@[i].dfa, c.scanner_modes@[i].dfa)
+        } by {
+        assert(a.scanner_modes@[i].name == b.scanner_modes@[i].name);
+        assert(b.scanner_modes@[i].name == c.scanner_modes@[i].name);
+    }
+}
